@@ -189,6 +189,31 @@ func init() {
 		}
 		return intVal(r)
 	})
+	reg(rtPkg+".CaptureLog", func(fr *frame, args []value) value { return nil })
+	reg(rtPkg+".LogLines", func(fr *frame, args []value) value {
+		var out []value
+		for _, e := range fr.path().events {
+			switch e.Kind {
+			case "log.Printf":
+				if len(e.Args) > 0 {
+					line := fr.i.symSprintf(e.Args[0], e.Args[1:])
+					// the logger appends a newline only if missing; lines are reported without it
+					if s, ok := line.(string); ok {
+						line = strings.TrimSuffix(s, "\n")
+					} else if t := mustTerm(line); strings.HasSuffix(t.s, `"\u{a}")`) {
+						// term ends with a literal newline piece: rebuild without it
+						if f, ok := e.Args[0].(string); ok && strings.HasSuffix(f, "\n") {
+							line = fr.i.symSprintf(strings.TrimSuffix(f, "\n"), e.Args[1:])
+						}
+					}
+					out = append(out, line)
+				}
+			case "log.Println", "log.Print":
+				out = append(out, fr.i.symSprint(e.Args, false))
+			}
+		}
+		return out
+	})
 	reg(rtPkg+".Symbolic", func(fr *frame, args []value) value { return true })
 	reg(rtPkg+".Concrete", func(fr *frame, args []value) value {
 		// Concrete(x string) string: fork over nothing; value must already be concrete
@@ -212,6 +237,7 @@ func init() {
 		return intVal(IndexOf(mustTerm(args[0]), StrFromCode(mustTerm(args[1])), IntLit(0)))
 	})
 	reg("strings.TrimPrefix", func(fr *frame, args []value) value {
+		return memoPure(fr, "strings.TrimPrefix", args, func() value {
 		if allConcrete(args) {
 			return strings.TrimPrefix(args[0].(string), args[1].(string))
 		}
@@ -222,8 +248,10 @@ func init() {
 			return strVal(t)
 		}
 		return args[0]
+		})
 	})
 	reg("strings.TrimSuffix", func(fr *frame, args []value) value {
+		return memoPure(fr, "strings.TrimSuffix", args, func() value {
 		if allConcrete(args) {
 			return strings.TrimSuffix(args[0].(string), args[1].(string))
 		}
@@ -234,6 +262,7 @@ func init() {
 			return strVal(t)
 		}
 		return args[0]
+		})
 	})
 	reg("strings.Replace", func(fr *frame, args []value) value {
 		if allConcrete(args) {
@@ -268,6 +297,7 @@ func init() {
 		return strVal(StrReplaceAll(s, o, n))
 	})
 	reg("strings.Split", func(fr *frame, args []value) value {
+		return memoPure(fr, "strings.Split", args, func() value {
 		if allConcrete(args) {
 			return strSliceVal(strings.Split(args[0].(string), args[1].(string)))
 		}
@@ -276,6 +306,7 @@ func init() {
 			panic(engineError{"strings.Split with symbolic or empty separator"})
 		}
 		return fr.i.symSplit(mustTerm(args[0]), sep)
+		})
 	})
 	reg("strings.Join", func(fr *frame, args []value) value {
 		elems := args[0].([]value)
@@ -290,6 +321,7 @@ func init() {
 		return strVal(acc)
 	})
 	reg("strings.TrimSpace", func(fr *frame, args []value) value {
+		return memoPure(fr, "strings.TrimSpace", args, func() value {
 		if s, ok := goStr(args[0]); ok {
 			return strings.TrimSpace(s)
 		}
@@ -315,6 +347,7 @@ func init() {
 		p.Assume(InRe(t, "(re.* "+ws+")"))
 		p.Assume(InRe(r, `(re.union (str.to_re "") `+nws+` (re.++ `+nws+` re.all `+nws+`))`))
 		return strVal(r)
+		})
 	})
 	reg("strings.ToLower", func(fr *frame, args []value) value {
 		if s, ok := goStr(args[0]); ok {
@@ -398,6 +431,7 @@ func init() {
 		return intVal(IndexOf(mustTerm(args[0]), StrFromCode(mustTerm(args[1])), IntLit(0)))
 	})
 	reg("strings.Cut", func(fr *frame, args []value) value {
+		return memoPure(fr, "strings.Cut", args, func() value {
 		if allConcrete(args) {
 			b, a, f := strings.Cut(args[0].(string), args[1].(string))
 			return tuple{b, a, f}
@@ -409,6 +443,7 @@ func init() {
 			return tuple{strVal(Substr(s, IntLit(0), idx)), strVal(Substr(s, after, Sub(StrLen(s), after))), true}
 		}
 		return tuple{args[0], "", false}
+		})
 	})
 	reg("strings.Title", func(fr *frame, args []value) value {
 		if allConcrete(args) {
@@ -517,7 +552,9 @@ func init() {
 		return strVal(Ite(Ge(t, IntLit(0)), StrFromInt(t), Concat(StrLit("-"), StrFromInt(Neg(t)))))
 	})
 	reg("strconv.Atoi", func(fr *frame, args []value) value {
+		return memoPure(fr, "strconv.Atoi", args, func() value {
 		return fr.i.symAtoi(fr, args[0], "Atoi")
+		})
 	})
 	reg("strconv.Quote", func(fr *frame, args []value) value {
 		if s, ok := goStr(args[0]); ok {
@@ -718,6 +755,33 @@ func init() {
 		}
 		return nil
 	})
+}
+
+// memoPure caches the result of a pure intrinsic per path, keyed by the
+// argument terms: a repeated call takes no new fork and creates no new
+// symbolic constants (the decisions of the first call are in the path condition).
+func memoPure(fr *frame, name string, args []value, f func() value) value {
+	p := fr.path()
+	if p == nil {
+		return f()
+	}
+	var b strings.Builder
+	b.WriteString("pure:" + name)
+	for _, a := range args {
+		t, ok := termOf(a)
+		if !ok {
+			return f()
+		}
+		b.WriteByte('\x00')
+		b.WriteString(t.s)
+	}
+	key := b.String()
+	if r, ok := p.memo[key]; ok {
+		return r
+	}
+	r := f()
+	p.memo[key] = r
+	return r
 }
 
 func flattenArgs(args []value) []value {
